@@ -86,9 +86,12 @@ def cfgs_random(prop, tier, rng):
 
 def cfgs_chain(prop, tier):
     out = []
-    pats2 = [[('L', (0, 1))] * 3, [('L', (1,)), ('L', (0,)), ('L', (1,)), ('L', (0,))], [('F', (0, 1)), ('F', (0,)), ('F', (0,))], [('L', (0,))] * 3 + [('L', (1,))]]
+    pats2 = [[('L', (0, 1))] * 3, [('L', (1,)), ('L', (0,)), ('L', (1,)), ('L', (0,))], [('F', (0, 1)), ('F', (0,)), ('F', (0,))], [('L', (0,))] * 3 + [('L', (1,))],
+             [('L', (1,))] * 2 + [('L', (0,))] + [('F', (1,))], [('F', (0,)), ('L', (1,)), ('F', (0,)), ('L', (0, 1))]]
     pats3 = [[('L', (0, 1, 2)), ('L', (0,))], [('L', (1,)), ('L', (0,))], [('L', (1,)), ('L', (0,)), ('L', (2,))], [('F', (0, 1, 2)), ('F', (2,)), ('L', (0,))]]
     versions = (6, 8) if tier == 'quick' else (6, 7, 8, 2, 3)
+    if prop == 'C04' and tier == 'quick':
+        versions = (6, 8, 3)
     for D, pats in ((2, pats2), (3, pats3)):
         for (lmin, lmax) in ((2, 3), (1, 3)) + (((1, 2),) if tier == 'thorough' else ()):
             for version in versions:
@@ -97,7 +100,7 @@ def cfgs_chain(prop, tier):
                         continue
                     for pi, pat in enumerate(pats):
                         c = dict(D=D, lmin=lmin, lmax=lmax, version=version, rebalancing=False, boundary=bnd, sfn=1, sfd=10, maxintervals=40 if D == 2 else 30,
-                                 max_hats=(24 if tier == 'quick' else 80) if prop == 'C04' else 6, name='chain D=%d (%d,%d) v%d bnd=%s #%d' % (D, lmin, lmax, version, bnd, pi))
+                                 max_hats=(60 if tier == 'quick' else 120) if prop == 'C04' else 6, name='chain D=%d (%d,%d) v%d bnd=%s #%d' % (D, lmin, lmax, version, bnd, pi))
                         if prop == 'C06':
                             c['margin'] = None
                         out.append((c, pat))
@@ -199,7 +202,9 @@ def conclude(rep, prop, traces, finish=True):
                 sig = {'strategy': 'dimwise', 'version': cfg['version'], 'rebalancing': cfg['rebalancing']}
                 if prop == 'C04':
                     sig['cause'] = classify_c04(rep, tr, step)
-                    sig = {'strategy': 'dimwise', 'cause': sig['cause']} if sig['cause'] in ('rebalancing', 'version2', 'version3') else sig
+                    if sig['cause'] in ('rebalancing', 'version2', 'version3'):
+                        # the recorded legacy-version findings are limited to the start levels on which the unchanged library shows them
+                        sig = {'strategy': 'dimwise', 'cause': sig['cause'], 'lmin_ge_2': cfg['lmin'] >= 2, 'lmin_ge_2_or_gap_ge_2': cfg['lmin'] >= 2 or cfg['lmax'] - cfg['lmin'] >= 2}
                 else:
                     sig.update({'D': cfg['D'], 'lmin': cfg['lmin'], 'lmax': cfg['lmax'], 'boundary': cfg['boundary'], 'step': step,
                                 'origin': tr['origin'].split(' ')[0]})
